@@ -40,6 +40,14 @@ pub fn property() -> Property {
                 replay: |v| replay_case::<AdvCase, _>(v, check_adversarial),
             },
             Part {
+                name: "crowded_roots",
+                quick: 800,
+                thorough: 30_000,
+                single_shard: false, supplementary: false,
+                run: |cfg| run_part(cfg, (proptest::collection::vec((0..64u8, 0..8u8), 3..12), any::<u32>(), any::<bool>()), |(pieces, x, flip)| crowded_case(pieces, *x, *flip), check_crowded),
+                replay: |v| replay_case::<CrowdedCase, _>(v, check_crowded),
+            },
+            Part {
                 name: "long_session",
                 quick: 16,
                 thorough: 320,
@@ -60,6 +68,8 @@ pub enum Step {
     StrayStop,
     StrayPonderHit,
     IsReady,
+    /// `debug on` / `debug off`
+    Debug(bool),
 }
 
 #[derive(Debug, Clone, Serialize, Deserialize)]
@@ -315,6 +325,8 @@ fn build_session(r: &RawSession) -> SessionCase {
             0 => steps.push(Step::StrayStop),
             1 => steps.push(Step::StrayPonderHit),
             2 => steps.push(Step::IsReady),
+            4 => steps.push(Step::Debug(true)),
+            5 => steps.push(Step::Debug(c.a % 3 == 0)),
             _ => {}
         }
         steps.push(Step::Go(build_go(c, &root)));
@@ -429,6 +441,10 @@ pub fn check_session(case: &SessionCase, ctx: &mut Ctx) -> Result<(), String> {
             Step::StrayStop => s.stop(),
             Step::StrayPonderHit => s.send(inkayaku_uci::UciCommand::PonderHit),
             Step::IsReady => s.send(inkayaku_uci::UciCommand::IsReady),
+            Step::Debug(on) => {
+                s.send(inkayaku_uci::UciCommand::SetDebug { debug: *on });
+                ctx.class(if *on { "debug_on" } else { "debug_off" });
+            }
             Step::Go(g) => {
                 gos += 1;
                 trace.push(g.to_line());
@@ -490,6 +506,7 @@ fn check_session_binary(case: &SessionCase, ctx: &mut Ctx) -> Result<(), String>
             Step::StrayStop => b.line("stop")?,
             Step::StrayPonderHit => b.line("ponderhit")?,
             Step::IsReady => b.line("isready")?,
+            Step::Debug(on) => b.line(if *on { "debug on" } else { "debug off" })?,
             Step::Go(g) => {
                 b.line(&g.to_line())?;
                 if let Some(ms) = g.ponderhit_after_ms {
@@ -849,5 +866,80 @@ pub fn check_adversarial(c: &AdvCase, ctx: &mut Ctx) -> Result<(), String> {
     ctx.class(if q.in_check(q.turn) { "mover_now_in_check" } else { "piece_now_pinned" });
     ctx.nontrivial((c.fen.clone(), q.fen(), c.first_depth, c.second_depth));
     ctx.sample(|| serde_json::json!({"first": c.fen, "first_depth": c.first_depth, "preferred": best.uci(), "second": q.fen(), "second_depth": c.second_depth}));
+    Ok(())
+}
+
+// ------------------------------------------------------------------------------------------------
+// roots with very many legal moves (several queens / rooks of the mover on an open board; random play never
+// produces them): the first iteration alone is hundreds of nodes. Budgets from zero upwards.
+
+#[derive(Debug, Clone, Serialize, Deserialize)]
+pub struct CrowdedCase {
+    pub fen: String,
+    pub go: GoSpec,
+}
+
+fn crowded_case(pieces: &[(u8, u8)], x: u32, flip: bool) -> CrowdedCase {
+    use crate::refmodel::{sq, Color};
+    let mut p = Pos::empty();
+    // the defender's king sits in a shelter no line piece can look into
+    p.board[sq(7, 7) as usize] = Some((Color::Black, Kind::King));
+    p.board[sq(7, 6) as usize] = Some((Color::Black, Kind::Pawn));
+    p.board[sq(6, 6) as usize] = Some((Color::Black, Kind::Pawn));
+    p.board[sq(6, 7) as usize] = Some((Color::Black, Kind::Knight));
+    p.board[sq(0, 0) as usize] = Some((Color::White, Kind::King));
+    for &(s, k) in pieces {
+        let s = s as usize;
+        if p.board[s].is_some() {
+            continue;
+        }
+        let kind = [Kind::Queen, Kind::Queen, Kind::Queen, Kind::Queen, Kind::Rook, Kind::Rook, Kind::Bishop, Kind::Knight][k as usize];
+        p.board[s] = Some((Color::White, kind));
+        if !p.is_sane() {
+            p.board[s] = None;
+        }
+    }
+    p.turn = Color::White;
+    p.half = (x % 50) as u64;
+    p.full = 30 + (x / 64 % 60) as u64;
+    let p = if flip { p.flip() } else { p };
+    let go = match x / 4096 % 8 {
+        0 | 1 => GoSpec { movetime: Some(0), ..GoSpec::default() },
+        2 => GoSpec { movetime: Some((x / 32768 % 6) as u64), ..GoSpec::default() },
+        3 => GoSpec { wtime: Some(100), btime: Some(100), ..GoSpec::default() },
+        4 => GoSpec { wtime: Some((x / 32768 % 200) as u64), btime: Some((x / 32768 % 200) as u64), winc: Some(0), binc: Some(0), ..GoSpec::default() },
+        5 => GoSpec { wtime: Some(1), btime: Some(1), movestogo: Some((x / 32768 % 3) as u64), ..GoSpec::default() },
+        6 => GoSpec::depth(1),
+        _ => GoSpec { movetime: Some(20 + (x / 32768 % 60) as u64), ..GoSpec::default() },
+    };
+    CrowdedCase { fen: p.fen(), go }
+}
+
+pub fn check_crowded(c: &CrowdedCase, ctx: &mut Ctx) -> Result<(), String> {
+    let p = Pos::from_fen(&c.fen).ok_or_else(|| format!("{HARNESS_PREFIX} bad fen {}", c.fen))?;
+    if !p.is_sane() {
+        return Err(format!("{HARNESS_PREFIX} insane crowded root {}", c.fen));
+    }
+    let n = p.legal_moves().len();
+    let mut s = Session::new();
+    s.position(&c.fen, &[])?;
+    let out = match s.search(&c.go) {
+        Wait::Done(o) => o,
+        Wait::ThreadDied(why, _) => return Err(format!("no bestmove for {} ({n} legal moves) `{}`: {why}", c.fen, c.go.to_line())),
+        Wait::Timeout => return Err(format!("{HARNESS_PREFIX} watchdog at {}", c.fen)),
+    };
+    judge_answer(&p, 0, &c.go, out.best_uci(), ctx).map_err(|e| format!("{e} (the root has {n} legal moves)"))?;
+    s.quit()?;
+    ctx.evals(1);
+    ctx.class(match n {
+        0..=59 => "legal_moves_lt_60",
+        60..=99 => "legal_moves_60_to_99",
+        100..=149 => "legal_moves_100_to_149",
+        _ => "legal_moves_ge_150",
+    });
+    if n >= 100 {
+        ctx.nontrivial((c.fen.clone(), c.go.to_line()));
+    }
+    ctx.sample(|| serde_json::json!({"fen": c.fen, "legal_moves": n, "go": c.go.to_line()}));
     Ok(())
 }
